@@ -819,3 +819,54 @@ pub fn evaluate<F: Field, B: PolynomialRepresentation>(
     });
     values
 }
+
+/// Verification hook: a plain-data view of the compiled custom-gates graph of a proving key
+/// (constants, rotations, and one canonical string per calculation, in order).
+#[cfg(feature = "verif-hooks")]
+impl<F: WithSmallOrderMulGroup<3>, CS: crate::poly::commitment::PolynomialCommitmentScheme<F>>
+    super::ProvingKey<F, CS>
+{
+    /// Constants, rotations and calculations of `ev.custom_gates`.
+    pub fn verif_custom_gates_graph(&self) -> (Vec<F>, Vec<i32>, Vec<String>) {
+        fn vs(v: &ValueSource) -> String {
+            match v {
+                ValueSource::Constant(i) => format!("c{i}"),
+                ValueSource::Intermediate(i) => format!("t{i}"),
+                ValueSource::Fixed(c, r) => format!("f{c}.{r}"),
+                ValueSource::Advice(c, r) => format!("a{c}.{r}"),
+                ValueSource::Instance(c, r) => format!("i{c}.{r}"),
+                ValueSource::Challenge(i) => format!("h{i}"),
+                ValueSource::Beta() => "beta".into(),
+                ValueSource::Gamma() => "gamma".into(),
+                ValueSource::Theta() => "theta".into(),
+                ValueSource::TrashChallenge() => "trash".into(),
+                ValueSource::Y() => "y".into(),
+                ValueSource::PreviousValue() => "prev".into(),
+            }
+        }
+        let g = &self.ev.custom_gates;
+        let calcs = g
+            .calculations
+            .iter()
+            .map(|c| {
+                let body = match &c.calculation {
+                    Calculation::Add(a, b) => format!("add({},{})", vs(a), vs(b)),
+                    Calculation::Sub(a, b) => format!("sub({},{})", vs(a), vs(b)),
+                    Calculation::Mul(a, b) => format!("mul({},{})", vs(a), vs(b)),
+                    Calculation::Square(a) => format!("square({})", vs(a)),
+                    Calculation::Double(a) => format!("double({})", vs(a)),
+                    Calculation::Negate(a) => format!("negate({})", vs(a)),
+                    Calculation::Horner(s, parts, f) => format!(
+                        "horner({};{};{})",
+                        vs(s),
+                        parts.iter().map(vs).collect::<Vec<_>>().join(","),
+                        vs(f)
+                    ),
+                    Calculation::Store(a) => format!("store({})", vs(a)),
+                };
+                format!("t{}={}", c.target, body)
+            })
+            .collect();
+        (g.constants.clone(), g.rotations.clone(), calcs)
+    }
+}
